@@ -38,6 +38,13 @@ def cases(draw, tier="quick"):
         if draw(st.booleans()):
             # ... read by a reader that asks for all of them at once, late
             P["many_gets"] = True
+    if draw(st.integers(0, 30)) == 0:
+        # a backlog of more than a hundred tiny messages, read back to back in one reactor turn
+        side = draw(st.integers(0, 1))
+        P["sends"][side] = [b"%d" % k for k in range(draw(st.integers(104, 130)))]
+        P["many_gets"] = True
+        P["huge_backlog"] = True
+        P["mode"] = "deferred"
     P["drops"] = draw(st.sampled_from([0, 0, 1, 2, 3, 5]))
     P["dup"] = draw(st.booleans())
     P["reorder"] = draw(st.booleans())
@@ -48,7 +55,7 @@ def cases(draw, tier="quick"):
     P["extra_msg_gets"] = draw(st.sampled_from([0, 1, 2, 3]))
     if P.get("many_gets"):
         # fewer requests than messages, so that the callbacks' follow-up reads find buffered messages too
-        P["get_burst"] = draw(st.integers(11, 13))
+        P["get_burst"] = draw(st.integers(11, 13)) if not P.get("huge_backlog") else draw(st.integers(101, 104))
         P["gets"] = "late"
     if P["dilate"] == [True, True] and P["mode"] == "deferred" and draw(st.booleans()):
         # both dilating: their dilate-N control records and the application phases are reordered together
